@@ -408,3 +408,26 @@ VARIANTS += [
     ("C20-farthest-op", "C20", TIME, "        if self.diff(dt1).total_seconds() > self.diff(dt2).total_seconds():", "        if self.diff(dt1).total_seconds() < self.diff(dt2).total_seconds():", "ORDER.pairing"),
     ("C20-closest-recon", "C20", TIME, "        dt1 = self.__class__(dt1.hour, dt1.minute, dt1.second, dt1.microsecond)\n        dt2 = self.__class__(dt2.hour, dt2.minute, dt2.second, dt2.microsecond)\n\n        if self.diff(dt1).total_seconds() <", "        dt1 = self.__class__(dt1.hour, dt1.minute, dt1.second)\n        dt2 = self.__class__(dt2.hour, dt2.minute, dt2.second, dt2.microsecond)\n\n        if self.diff(dt1).total_seconds() <", "RECON.gap"),
 ]
+
+# ---------------------------------------------------------------------------
+# behaviour-preserving edits: none of these may be reported (quiet or UNVERIFIED is fine, VIOLATION / exit 2 is not)
+BENIGN = [
+    ("rename-add-local", DT, "        units_of_variable_length = any([years, months, weeks, days])", "        calendar_units = any([years, months, weeks, days])", ["C01", "C03", "C04"], [("units_of_variable_length", "calendar_units")]),
+    ("convert-rename-locals", TZ, None, None, ["C01", "C02"], [("offset_before", "off0"), ("offset_after", "off1")]),
+    ("duration-new-rename-m", DUR, None, None, ["C09", "C10", "C04"], [("        m = 1\n        if total < 0:\n            m = -1", "        sgn = 1\n        if total < 0:\n            sgn = -1"), ("total % m * 1e6", "total % sgn * 1e6"), ("% SECONDS_PER_DAY * m", "% SECONDS_PER_DAY * sgn"), ("// SECONDS_PER_DAY * m", "// SECONDS_PER_DAY * sgn"), ("% 7 * m", "% 7 * sgn"), ("// 7 * m", "// 7 * sgn")]),
+    ("error-message-change", "src/pendulum/tz/exceptions.py", None, None, ["C01", "C02"], [('message = "The datetime {} does not exist."', 'message = "The datetime {} is not a valid local time."')]),
+    ("add-unrelated-method", DT, None, None, ["C01", "C02", "C03", "C04", "C05", "C11", "C12", "C14", "C16"], [("    def is_utc(self) -> bool:", "    def is_epoch(self) -> bool:\n        return self.int_timestamp == 0\n\n    def is_utc(self) -> bool:")]),
+    ("docstring-change", HELP, None, None, ["C03", "C04"], [('    Adds a duration to a date/datetime instance.', '    Adds a duration to a date or datetime instance (calendar aware).')]),
+    ("interval-rename-delta", IV, None, None, ["C05", "C06", "C14", "C19"], [("        delta: timedelta = _end - _start\n\n        return super().__new__(cls, seconds=delta.total_seconds())", "        span: timedelta = _end - _start\n\n        return super().__new__(cls, seconds=span.total_seconds())")]),
+    ("precise-diff-rename", PYH, None, None, ["C06", "C15"], [("hour_diff", "h_diff")]),
+    ("time-diff-rename", TIME, None, None, ["C20"], [("us1", "a_us"), ("us2", "b_us")]),
+    ("parser-rename-dt", PARSER, None, None, ["C13", "C17", "C07"], [("            duration = parsed.duration\n", "            duration = parsed.duration  # the parsed ISO 8601 duration\n")]),
+    ("formatter-add-token-alias", FMT, None, None, ["C08", "C18"], [('        "YYYY": lambda dt: f"{dt.year:d}",\n', '        "YYYY": lambda dt: f"{dt.year:d}",\n        "YYYYY": lambda dt: f"{dt.year:05d}",\n')]),
+    ("range-rename-i", IV, None, None, ["C19"], [("        i = amount\n", "        k = amount\n"), ("(**{unit: i})", "(**{unit: k})"), ("            i += amount", "            k += amount")]),
+    ("iso-rename-ordinal", ISO, None, None, ["C07", "C17", "C13"], [("                        ordinal = int(m.group(\"month\") + m.group(\"day\"))", "                        ordinal = int(m.group(\"month\") + m.group(\"day\"))  # YYYY-DDD")]),
+    ("locale-add-key", "src/pendulum/locales/fr/custom.py", None, None, ["C18"], [('    "after": ', '    "since": "depuis {0}",\n    "after": ')]),
+    ("deepcopy-memo-name", DUR, None, None, ["C14", "C10"], [("    def __deepcopy__(self, _: dict[int, Self]) -> Self:\n        return self.__class__(\n            days=self.remaining_days,", "    def __deepcopy__(self, memo: dict[int, Self]) -> Self:\n        return self.__class__(\n            days=self.remaining_days,")]),
+]
+for _name, _file, _o, _n, _props, _pairs in BENIGN:
+    for _p in _props:
+        VARIANTS.append((f"{_p}-benign-{_name}", _p, _file, [(a, b) for a, b in _pairs] if _pairs else [(_o, _n)], None, None, None))
